@@ -22,9 +22,11 @@ type verifRec struct{ name, desc, letters string }
 func verifWrite(t *testing.T, recs []verifRec, width int) []byte {
 	var buf bytes.Buffer
 	w := NewWriter(&buf, width)
-	for _, r := range recs {
+	for k, r := range recs {
 		s := linear.NewSeq(r.name, alphabet.BytesToLetters([]byte(r.letters)), alphabet.DNA)
 		s.Desc = r.desc
+		// the record's position in its coordinate system is not part of the formats: any offset writes the same text
+		s.Offset = []int{0, 3, -2, len(r.letters)}[(k+len(r.letters))%4]
 		before := buf.Len()
 		n, err := w.Write(s)
 		if err != nil {
